@@ -131,8 +131,8 @@ class Worker:
         self.props = props
         self.base = base
         os.makedirs(self.dir, exist_ok=True)
-        if not os.path.exists(self.repo):
-            sh("rsync -a --exclude target --exclude .git /repo/ %s/" % self.repo)
+        # always start from a pristine copy (a killed run may have left a mutant applied)
+        sh("rsync -a --delete --exclude target --exclude .git /repo/ %s/" % self.repo)
         if not os.path.exists(self.harness):
             shutil.copytree(os.path.join(snap, "harness"), self.harness)
             ct = os.path.join(self.harness, "Cargo.toml")
